@@ -14,6 +14,7 @@ with a concrete witness and a `_partial` theorem names what is excluded.
 -/
 import LA.Lemmas.NumFmt
 import LA.Lemmas.UstarSpec
+import LA.Lemmas.Stream
 namespace LA.C10
 open LA.NumFmt LA.Codec
 
@@ -411,5 +412,27 @@ example : (ustarWriteHeader {} { path := none }).1 = .failed := by decide
 theorem of C02 then applies to the accepted entries alone). -/
 theorem ustar_refused_writes_nothing (st : WState) (e : Entry) (h : (ustarWriteHeader st e).1 ≠ .ok) :
     ustarWriteHeader st e = (.failed, [], st) := ustarWriteHeader_refused st e h
+
+/-- **A refused entry leaves an archive that still reads back as the accepted entries** (ustar):
+whatever entries are offered, refused ones in any position, the archive reads back as exactly
+the accepted ones, in order, each exact, and ends cleanly. -/
+theorem refused_keeps_archive_readable_ustar (es : List (Entry × List (List Nat)))
+    (hes : ∀ ec ∈ es, UstarEntryOK ec.1) (bpb : Nat) (bilb : Int) :
+    ∃ rbs fmt, tarRead false (writeArchive .ustar es bpb bilb) 0 LA.Gen.CodecConsts.ARCHIVE_FORMAT_TAR []
+        = ⟨fmt, rbs, .eof, rbs.length + 1⟩ ∧
+      AllPairs ReadsBackAs (es.filter fun ec => ustarAccepted ec.1) rbs := by
+  unfold writeArchive
+  simp only [closeBytes]
+  rw [List.append_assoc, List.replicate_append_replicate]
+  obtain ⟨rbs, fmt, h, hall⟩ := tarRead_entries es hes {}
+    (1024 + clientPad ((writeEntries .ustar {} es).1 ++ List.replicate 1024 0).length bpb bilb)
+    0 LA.Gen.CodecConsts.ARCHIVE_FORMAT_TAR [] (by omega)
+  refine ⟨rbs, fmt, ?_, hall⟩
+  rw [h]; simp
+
+/-- e.g. accepted, refused (uid 2^18), accepted. -/
+example : ([({ path := some [97] }, []), ({ path := some [98], uid := 262144 }, []), ({ path := some [99] }, [])]
+    : List (Entry × List (List Nat))).filter (fun ec => ustarAccepted ec.1)
+    = [({ path := some [97] }, []), ({ path := some [99] }, [])] := by decide
 
 end LA.C10
